@@ -1,5 +1,9 @@
 """C08 - MemBlock/RomBlock behave as arrays under every history of reads and writes."""
 from elab import passcheck
+
+
+def _reraise():
+    raise
 from props.C01 import sim_family
 from fam import designs
 
@@ -12,7 +16,8 @@ def _walk(task):
     try:
         return memcheck.array_walk(**task)
     except Exception:
-        return dict(failed=True, observed=traceback.format_exc()[-800:], expected='no exception')
+        from vlib.guard import guarded
+        return guarded(_reraise)
 
 
 def _rom(task):
@@ -21,7 +26,8 @@ def _rom(task):
     try:
         return memcheck.rom_check(**task)
     except Exception:
-        return dict(failed=True, observed=traceback.format_exc()[-800:], expected='no exception')
+        from vlib.guard import guarded
+        return guarded(_reraise)
 
 
 def lemmas(ctx):
@@ -86,7 +92,9 @@ def run(ctx):
     for t, r in zip(tasks, res):
         steps += r.get('steps', 0)
         exh += 1 if r.get('exhaustive') else 0
-        if r['failed']:
+        if r.get('crashed'):
+            ctx.crashes.append('C08.array_walk: ' + r['observed'][-400:])
+        elif r['failed']:
             ctx.confirm_and_report('C08.array_walk[%s aw=%d dw=%d pre=%s]'
                                    % (t['simname'], t['aw'], t['dw'], '+'.join(t['pre'])),
                                    'call', dict(module='fam.memcheck', func='array_walk', kwargs=t),
@@ -106,7 +114,9 @@ def run(ctx):
               for p in ((), ('synthesize',), ('optimize',))]
     rres = passcheck.pmap(_rom, rtasks)
     for t, r in zip(rtasks, rres):
-        if r['failed']:
+        if r.get('crashed'):
+            ctx.crashes.append('C08.rom: ' + r['observed'][-400:])
+        elif r['failed']:
             ctx.confirm_and_report('C08.rom[%s %s pre=%s]' % (t['simname'], t['kind'], '+'.join(t['pre'])),
                                    'call', dict(module='fam.memcheck', func='rom_check', kwargs=t),
                                    canonical_input=t, function='pyrtl.memory.RomBlock',
